@@ -16,6 +16,7 @@ sufficient-decrease constant.
 import PyttbModel.Lemmas.CpAprObjective
 import PyttbModel.Lemmas.CpAprDescent
 import PyttbModel.Lemmas.CpAprMajoriseModel
+import PyttbModel.Lemmas.CpAprMonoNewton
 import Mathlib.Analysis.SpecialFunctions.Log.Basic
 namespace Pyttb
 open Pyttb.CpApr Pyttb.CpApr.Gen
@@ -310,13 +311,13 @@ time, for the two kinds of step that change a row of a factor matrix:
     it started from: it passed `f_new ≤ f_old + 1e-4·gDotd` with `gDotd ≤ 0`, or it was the last
     trial and not worse.
 
-NOT covered (checked on the implementation by the harness for every run instead): the chain
-from rows to the tensor-level likelihood across modes and outer iterations (the row objective
-equals the tensor objective restricted to the row only while the other factors have unit
-column sums; `redistribute` / `normalize` themselves preserve the tensor:
-`C11_returned_model_denote`); steps where `epsDivZero` is active; the zero-row patch and the
-inadmissible-zero bump, which move the iterate by `1e-8` / `kappa` and CAN lower the
-likelihood of the iterate. -/
+These two single-step facts need only LOCAL hypotheses (at the row in question); chained over
+rows, modes and iterations they give `C11_likelihood_monotone_mu / _pdnr / _pqnr` and
+`C11_likelihood_not_worse` below, for runs on which the safeguards are inactive.
+NOT covered by any theorem (checked on the implementation by the harness for every run
+instead): runs on which a safeguard IS active — `np.maximum(V, epsDivZero)` changing a
+denominator, the inadmissible-zero bump (`+kappa`), the zero-row patch (`1e-8`), a zero column
+norm in `normalize`; there the iterate CAN become less likely. -/
 theorem C11_likelihood_not_worse_partial (log : α → α) (c : Consts α) (hc : 0 ≤ c.suffDecr)
     (sparse : Bool) (dir grad mOld x : List α) (Pi : Mat α) (phi : List α) (R : Nat) :
     -- (1) multiplicative step
@@ -336,6 +337,197 @@ theorem C11_likelihood_not_worse_partial (log : α → α) (c : Consts α) (hc :
       rowNegLL (NumOps.ofField log) sparse x Pi mOld R) :=
   ⟨fun hL1 hL2 eps hm hPi hx hv => mu_step_not_worse log hL1 hL2 eps sparse x Pi mOld R hm hPi hx hv,
    lineSearch_descent log c hc sparse dir grad mOld x Pi phi R⟩
+
+/-! ### likelihood never decreases while the safeguards are inactive: MU
+
+`negLL log X K` is the negative Poisson log-likelihood of the data under the TENSOR that `K`
+denotes, `Σ_cells m − Σ x · log m` (the objective of `C11_objective_dense / _sparse`, negated).
+`LogLaws log` are the two facts about `log` the majorisation uses (`log t ≤ t − 1`,
+`log (s t) = log s + log t` on positive numbers; the natural logarithm has them).
+`muRunSafe log cfg X init k` is the DECIDABLE check (a `Bool` computed by re-running the model)
+that on the first `k` outer iterations from `init` the safeguards of the code are inactive:
+the normalised guess has no zero column, and in every mode of every iteration there is no
+inadmissible-zero bump, `np.maximum(V, epsDivZero)` changes no denominator (`eps ≤ V`, `0 < V` for
+every cell / stored entry the mode sees), and no column norm of the closing L1 `normalize` is
+zero. -/
+
+/-- The rows of a mode are independent given Pi: with unit weights (after `redistribute(n)`) and
+unit column sums in the other modes, the negative log-likelihood of the tensor with factor `n`
+replaced by ANY `I_n × R` matrix `A` is the sum of the row objectives
+`−tt_loglikelihood_row(data row i, A[i, :], Pi)` — dense (unfolding against the Khatri-Rao
+product) and sparse (stored entries grouped by their mode-`n` subscript) alike. -/
+theorem C11_likelihood_rows (log : α → α) (X : Data α) (K : Ktensor α) (n R : Nat)
+    (hs : ShapeK X.shape R K) (hn : n < K.factors.length) (hX : DataWF X)
+    (hpos : ∀ e ∈ X.shape, 0 < e)
+    (hw : ∀ r < K.weights.length, vget K.weights r = 1) (hc : ColsOneBut K n)
+    (md : ModeData α) (hmd : modeData X K n = .ok md) (A : Mat α)
+    (hA : IsMat (factor K n).length R A) :
+    negLL log X (setFactor K n A) = sumOver (factor K n).length (rowObj log md K n R A) :=
+  negLL_setFactor_rows log X K n hs hn hX hpos hw hc md hmd A hA
+
+/-- One mode of MU — `redistribute(n)` (tensor unchanged), the whole inner loop of up to
+`maxinneriters` multiplicative updates (each a majorisation step for every row), L1
+`normalize(mode=n)` (tensor unchanged) — does not decrease the likelihood of the model tensor,
+and re-establishes the invariant (non-negative, right shape, unit column sums in every mode). -/
+theorem C11_likelihood_monotone_mu_mode (log : α → α) (hlog : LogLaws log) (cfg : Cfg α)
+    (heps : 0 < cfg.eps) (X : Data α) (hX : DataWF X) (hXn : NonnegData X)
+    (hpos : ∀ e ∈ X.shape, 0 < e) (iterPos : Bool) (R : Nat) (s s' : MuIt α) (n : Nat)
+    (hn : n < X.shape.length) (hs : Good X.shape R s.M)
+    (hsafe : muModeSafe log cfg X iterPos s n = true)
+    (h : muMode (NumOps.ofField log) cfg X iterPos s n = .ok s') :
+    Good X.shape R s'.M ∧ negLL log X s'.M ≤ negLL log X s.M :=
+  muMode_mono log hlog cfg heps X hX hXn hpos iterPos s n s' hn hs hsafe h
+
+/-- MU, whole runs: for every `k`, if the safeguards are inactive on the first `k` outer
+iterations, the state after `k` outer iterations is at least as likely as the starting guess
+(`init` itself — the set-up normalisation does not change the tensor), and any further outer
+iteration on which the safeguards stay inactive does not decrease the likelihood either. -/
+theorem C11_likelihood_monotone_mu (log : α → α) (hlog : LogLaws log) (c : Consts α) (cfg : Cfg α)
+    (X : Data α) (init : Ktensor α) (heps : 0 < cfg.eps)
+    (hv : validate (NumOps.ofField log) c cfg .mu X init = true) (k : Nat) (s : MuSt α)
+    (hs : muStates (NumOps.ofField log) cfg X init k = .ok s)
+    (hsafe : muRunSafe log cfg X init k = true) :
+    negLL log X s.M ≤ negLL log X init ∧
+    ∀ s', muOuterSafe log cfg X s = true → muOuter (NumOps.ofField log) cfg X s = .ok s' →
+      negLL log X s'.M ≤ negLL log X s.M := by
+  obtain ⟨hXn, hi, hshape, _, _, _, hN⟩ := validate_spec log hv
+  obtain ⟨hX, hpos⟩ := validate_wf log hv
+  have h := muRun_mono log hlog cfg heps X hX hXn hpos init hi hshape k s hsafe hs
+  refine ⟨by rw [← negLL_normalize1 log hX hi hshape hN]; exact h.2, ?_⟩
+  intro s' hsf hstep
+  exact (muOuter_mono log hlog cfg heps X hX hXn hpos s s' h.1 hsf hstep).2
+
+/-! ### likelihood never decreases while the safeguards are inactive: PDNR, PQNR
+
+`nwRunSafe log c cfg alg dir X init k` is the decidable check that on the first `k` outer
+iterations of the run with direction service `dir` the safeguards are inactive: no all-zero row in
+the guess (zero-row patch), no zero column in the normalised guess, the `epsDivZero` clamp inactive
+at every row from which a line search starts (incl. PQNR's priming gradient step), no zero column
+norm in a closing `normalize`.  The DIRECTION is arbitrary, as in the non-negativity theorems. -/
+
+/-- One row update of PDNR and of PQNR (the whole row loop: any number of inner iterations, any
+directions) is not worse for the row objective.  The line search accepts only steps that pass the
+sufficient-decrease test or a last trial that is not worse; an exhausted loop otherwise returns the
+multiplicative fall-back, which is a majorisation step. -/
+theorem C11_likelihood_monotone_row (log : α → α) (hlog : LogLaws log) (c : Consts α)
+    (hc : 0 ≤ c.suffDecr) (cfg : Cfg α) (heps : 0 < cfg.eps)
+    (dir : Nat → List α → List α → Option (List α)) (sparse : Bool) (x : List α) (Pi : Mat α) (R : Nat)
+    (hPi : NonnegM Pi) (hx : NonnegL x) (fuel i : Nat) (s r : RowSt α) (hs : NonnegL s.m) :
+    (pdnrRowSafe log c cfg dir sparse x Pi R fuel i s = true →
+      pdnrRow (NumOps.ofField log) c cfg dir sparse x Pi R fuel i s = some r →
+      rowNegLL (NumOps.ofField log) sparse x Pi r.m R ≤ rowNegLL (NumOps.ofField log) sparse x Pi s.m R) ∧
+    (pqnrRowSafe log c cfg dir sparse x Pi R fuel i s = true →
+      pqnrRow (NumOps.ofField log) c cfg dir sparse x Pi R fuel i s = some r →
+      rowNegLL (NumOps.ofField log) sparse x Pi r.m R ≤ rowNegLL (NumOps.ofField log) sparse x Pi s.m R) :=
+  ⟨fun hsafe h => (pdnrRow_mono log hlog c hc cfg heps dir sparse x Pi R hPi hx fuel i s r hs hsafe h).2,
+   fun hsafe h => (pqnrRow_mono log hlog c hc cfg heps dir sparse x Pi R hPi hx fuel i s r hs hsafe h).2⟩
+
+/-- One mode of PDNR / PQNR — `redistribute(n)`, all row sub-problems (incl. the empty-row
+shortcut), L1 `normalize(mode=n)` — does not decrease the likelihood of the model tensor: the row
+objectives add up to the tensor objective (`C11_likelihood_rows`) and no row gets worse. -/
+theorem C11_likelihood_monotone_newton_mode (log : α → α) (hlog : LogLaws log) (c : Consts α)
+    (hc : 0 ≤ c.suffDecr) (cfg : Cfg α) (heps : 0 < cfg.eps) (alg : Alg) (dir : Dir α) (X : Data α)
+    (hX : DataWF X) (hXn : NonnegData X) (hpos : ∀ e ∈ X.shape, 0 < e) (iteration R : Nat)
+    (s s' : NwIt α) (n : Nat) (hn : n < X.shape.length) (hs : Good X.shape R s.M)
+    (hsafe : nwModeSafe log c cfg alg dir X iteration s n = true)
+    (h : nwMode (NumOps.ofField log) c cfg alg dir X iteration s n = .ok s') :
+    Good X.shape R s'.M ∧ negLL log X s'.M ≤ negLL log X s.M :=
+  nwMode_mono log hlog c hc cfg heps alg dir X hX hXn hpos iteration s n s' hn hs hsafe h
+
+/-- PDNR / PQNR (`alg ≠ mu`; `C11_likelihood_monotone_pdnr` / `_pqnr` are its two instances), whole
+runs, ANY direction service: if the safeguards are inactive on the first `k` outer iterations, the
+state after `k` outer iterations is at least as likely as the starting guess, and any further
+outer iteration on which they stay inactive does not decrease the likelihood. -/
+theorem C11_likelihood_monotone_newton (log : α → α) (hlog : LogLaws log) (c : Consts α)
+    (hc : 0 ≤ c.suffDecr) (cfg : Cfg α) (alg : Alg) (dir : Dir α) (X : Data α) (init : Ktensor α)
+    (heps : 0 < cfg.eps) (hv : validate (NumOps.ofField log) c cfg alg X init = true) (k : Nat)
+    (s : NwSt α) (hs : nwStates (NumOps.ofField log) c cfg alg dir X init k = .ok s)
+    (hsafe : nwRunSafe log c cfg alg dir X init k = true) :
+    negLL log X s.M ≤ negLL log X init ∧
+    ∀ s', nwOuterSafe log c cfg alg dir X s = true →
+      nwOuter (NumOps.ofField log) c cfg alg dir X s = .ok s' → negLL log X s'.M ≤ negLL log X s.M := by
+  obtain ⟨hXn, hi, hshape, _, _, _, hN⟩ := validate_spec log hv
+  obtain ⟨hX, hpos⟩ := validate_wf log hv
+  have h := nwRun_mono log hlog c hc cfg heps alg dir X hX hXn hpos init hi hshape k s hsafe hs
+  refine ⟨by rw [← negLL_normalize1 log hX hi hshape hN]; exact h.2, ?_⟩
+  intro s' hsf hstep
+  exact (nwOuter_mono log hlog c hc cfg heps alg dir X hX hXn hpos s s' h.1 hsf hstep).2
+
+theorem C11_likelihood_monotone_pdnr (log : α → α) (hlog : LogLaws log) (c : Consts α)
+    (hc : 0 ≤ c.suffDecr) (cfg : Cfg α) (dir : Dir α) (X : Data α) (init : Ktensor α)
+    (heps : 0 < cfg.eps) (hv : validate (NumOps.ofField log) c cfg .pdnr X init = true) (k : Nat)
+    (s : NwSt α) (hs : nwStates (NumOps.ofField log) c cfg .pdnr dir X init k = .ok s)
+    (hsafe : nwRunSafe log c cfg .pdnr dir X init k = true) :
+    negLL log X s.M ≤ negLL log X init :=
+  (C11_likelihood_monotone_newton log hlog c hc cfg .pdnr dir X init heps hv k s hs hsafe).1
+
+theorem C11_likelihood_monotone_pqnr (log : α → α) (hlog : LogLaws log) (c : Consts α)
+    (hc : 0 ≤ c.suffDecr) (cfg : Cfg α) (dir : Dir α) (X : Data α) (init : Ktensor α)
+    (heps : 0 < cfg.eps) (hv : validate (NumOps.ofField log) c cfg .pqnr X init = true) (k : Nat)
+    (s : NwSt α) (hs : nwStates (NumOps.ofField log) c cfg .pqnr dir X init k = .ok s)
+    (hsafe : nwRunSafe log c cfg .pqnr dir X init k = true) :
+    negLL log X s.M ≤ negLL log X init :=
+  (C11_likelihood_monotone_newton log hlog c hc cfg .pqnr dir X init heps hv k s hs hsafe).1
+
+/-! ### conclusion: the returned model is at least as likely as the starting guess -/
+
+/-- The reported objective is the log-likelihood (`-negLL`) of the returned model. -/
+theorem C11_objective_eq_negLL (log : α → α) (c : Consts α) (cfg : Cfg α) (alg : Alg) (dir : Dir α)
+    (sortPerm : List α → List Nat) (hsp : ∀ w, (sortPerm w).length = w.length)
+    (X : Data α) (init : Ktensor α) (out : Out α)
+    (hk : 0 ≤ cfg.kappa) (heps : 0 < cfg.eps) (hfill : 0 ≤ c.zeroRowFill)
+    (h : cpApr (NumOps.ofField log) c cfg alg dir sortPerm X init = .ok out) :
+    out.obj = -negLL log X out.M := by
+  cases X with
+  | dense T =>
+    rw [C11_objective_dense log c cfg alg dir sortPerm hsp T init out hk heps hfill h]
+    unfold negLL
+    simp only
+    rw [neg_sub]
+    congr 2
+    apply List.map_congr_left
+    intro k _
+    split
+    · next h0 => rw [h0, zero_mul]
+    · rfl
+  | sparse S =>
+    rw [C11_objective_sparse log c cfg alg dir sortPerm hsp S init out hk heps hfill h]
+    unfold negLL
+    simp only
+    rw [neg_sub]
+
+/-- CONCLUSION.  If the safeguards are inactive on the run, the model `cp_apr` returns is at least
+as likely as the starting guess, for each of the three solvers and any direction service: the
+reported objective (the Poisson log-likelihood of the returned model) is at least the
+log-likelihood of the guess. -/
+theorem C11_likelihood_not_worse (log : α → α) (hlog : LogLaws log) (c : Consts α) (cfg : Cfg α)
+    (alg : Alg) (dir : Dir α) (sortPerm : List α → List Nat)
+    (hsp : ∀ w, (sortPerm w).Perm (List.range w.length)) (X : Data α) (init : Ktensor α) (out : Out α)
+    (hk : 0 ≤ cfg.kappa) (heps : 0 < cfg.eps) (hfill : 0 ≤ c.zeroRowFill) (hc : 0 ≤ c.suffDecr)
+    (h : cpApr (NumOps.ofField log) c cfg alg dir sortPerm X init = .ok out)
+    (hsafe : SafeguardsInactive log c cfg alg dir X init = true) :
+    negLL log X out.M ≤ negLL log X init ∧ -negLL log X init ≤ out.obj := by
+  have hlen : ∀ w, (sortPerm w).length = w.length := fun w => by
+    rw [(hsp w).length_eq, List.length_range]
+  have hobj := C11_objective_eq_negLL log c cfg alg dir sortPerm hlen X init out hk heps hfill h
+  obtain ⟨M, hM, hden⟩ := C11_returned_model_denote log c cfg alg dir sortPerm hsp X init out hk heps hfill h
+  obtain ⟨hv, _⟩ := cpApr_ok _ h
+  obtain ⟨hX, _⟩ := validate_wf log hv
+  have heq : negLL log X out.M = negLL log X M := negLL_congr log hX hden
+  have hle : negLL log X M ≤ negLL log X init := by
+    rcases hM with ⟨ha, s, hs, rfl⟩ | ⟨ha, s, hs, rfl⟩
+    · subst ha
+      exact (C11_likelihood_monotone_mu log hlog c cfg X init heps hv _ s hs hsafe).1
+    · have hsafe' : nwRunSafe log c cfg alg dir X init cfg.maxiters = true := by
+        unfold SafeguardsInactive at hsafe
+        cases alg with
+        | mu => exact absurd rfl ha
+        | pdnr => exact hsafe
+        | pqnr => exact hsafe
+      exact (C11_likelihood_monotone_newton log hlog c hc cfg alg dir X init heps hv _ s hs hsafe').1
+  refine ⟨heq ▸ hle, ?_⟩
+  rw [hobj, heq]
+  exact neg_le_neg hle
 
 /-! ### rejected requests -/
 
@@ -385,6 +577,32 @@ example : (0 : ℚ) ≤ (Consts.ofGen (α := ℚ) id).zeroRowFill ∧ (0 : ℚ) 
 natural logarithm over ℝ. -/
 example : (∀ t : ℝ, 0 < t → Real.log t ≤ t - 1) ∧
     (∀ s t : ℝ, 0 < s → 0 < t → Real.log (s * t) = Real.log s + Real.log t) :=
+  ⟨fun _ ht => Real.log_le_sub_one_of_pos ht, fun _ _ hs ht => Real.log_mul hs.ne' ht.ne'⟩
+
+/-- `SafeguardsInactive` is satisfiable by non-trivial runs: two outer iterations of MU with two
+inner iterations per mode, on a dense 2×2 count matrix (rank 1) and on a sparse 2×3 count matrix
+with four stored entries (rank 2), all safeguards inactive throughout (the check does not
+involve `log`). -/
+example : muRunSafe (fun x : ℚ => x) ⟨1, 1/10000, 2, 2, 1/10000000000, 1/100, 1/10000000000, true⟩
+    (.dense ⟨[2, 2], [1, 2, 2, 3]⟩) ⟨[1], [[[1], [2]], [[1/2], [1/2]]]⟩ 2 = true := by decide +kernel
+
+example : muRunSafe (fun x : ℚ => x) ⟨2, 1/10000, 2, 2, 1/10000000000, 1/100, 1/10000000000, true⟩
+    (.sparse ⟨[2, 3], [[0, 0], [0, 1], [1, 1], [1, 2]], [1, 2, 3, 1]⟩)
+    ⟨[1, 2], [[[1, 1/2], [2, 1]], [[1/2, 1], [1/2, 1/3], [1, 1]]]⟩ 2 = true := by decide +kernel
+
+example : nwRunSafe (fun x : ℚ => x) (Consts.ofGen id)
+    ⟨1, 1/10000, 2, 2, 1/10000000000, 1/100, 1/10000000000, false⟩ .pdnr
+    (fun _ _ _ _ _ g => some (g.map fun v => -v))
+    (.dense ⟨[2, 2], [1, 2, 2, 3]⟩) ⟨[1], [[[1], [2]], [[1/2], [1/2]]]⟩ 2 = true := by decide +kernel
+
+example : nwRunSafe (fun x : ℚ => x) (Consts.ofGen id)
+    ⟨2, 1/10000, 2, 2, 1/10000000000, 1/100, 1/10000000000, true⟩ .pqnr
+    (fun _ _ _ _ _ g => some (g.map fun v => -v))
+    (.sparse ⟨[2, 3], [[0, 0], [0, 1], [1, 1], [1, 2]], [1, 2, 3, 1]⟩)
+    ⟨[1, 2], [[[1, 1/2], [2, 1]], [[1/2, 1], [1/2, 1/3], [1, 1]]]⟩ 1 = true := by decide +kernel
+
+/-- The natural logarithm satisfies `LogLaws`. -/
+example : LogLaws Real.log :=
   ⟨fun _ ht => Real.log_le_sub_one_of_pos ht, fun _ _ hs ht => Real.log_mul hs.ne' ht.ne'⟩
 
 /-- The solvers do return on such requests (so the theorems about `cpApr … = .ok out` are not
